@@ -73,3 +73,6 @@ META = {
              "refinement of bit strings."),
     'technique': 'Coq: deep embedding of TL-B types, codec prefix/tail law by induction over descriptors, declarative serialisation as intermediate; reflect-generated descriptors re-checked by vm_compute; cell-exact extracted-model correspondence',
 }
+
+# ROUND-8-APPEND
+PROP['rule'] += " (2d) the full-cell family: the encoder at the cell limit. struct {k prefix bits; j ^Cell; F; optional Uint2} built with reflect.StructOf for 39 field shapes covering every tag kind / wrapper / primitive of the reflection codec (bool, uintN/intN/Go kinds, 256/257-bit, bits, VarUInteger 3/16/32, Grams, Unary, Magic #/$, maybe, maybe^, ^ tags, Maybe[T], Maybe[Ref[T]], Either, EitherRef, Ref[T], ^Cell, Any, HashmapE, nested struct, synthetic union) and for 60 (thorough: all) shipped described types, k swept over 1023-size(F)-1..1023 so that every piece of F (presence bit, side bit, constructor tag, length field, value, reference) lands exactly on bit 1023, j = 0..4 so that F's reference is the 4th/5th: cell and decoded value vs the model (which answers Err on overflow), oracle: Marshal succeeds exactly when k+size <= 1023 and j+refs <= 4 and then round-trips (key full-cell-<shape>); (2e) prefilled cells, implementation only (c03.prefill): one value (6 thorough) of EVERY registered TL-B type (described, opaque, decode-only) marshalled into a cell already holding k random bits and j references, k swept over every position 1023-size-1..1023, j = 1..4 at the limits: tlb.Marshal fails, or the prefix is intact, the cell is within 1023 bits / 4 refs, decodes after the prefix to an equal value and re-encodes to the same cell, and for plain described types succeeds exactly when the value fits (key prefill-<Type>); types whose hand-written codec is tied to the start of a cell (tlb.Message, tlb.Transaction hash the cell and reset its cursor) are probed behind a 5-bit prefix and counted under root-of-cell-codec, abi.InMsgBody behind a reference-only prefix under known:reference-only-prefix-unsupported."
